@@ -682,9 +682,20 @@ SWEEP = ["reusable/test_vector.cpp",
 
 # name anchors (validated by tools/rename_sweep.py; a vanished name is exit 2, see core.check_anchor_names)
 ANCHORS = {
+    '_allocator': ['^babylon::ReusableVector(<|$)'],
+    '_capacity': ['^babylon::ReusableVector(<|$)'],
+    '_clear_times': ['^babylon::ReusableManager(<|$)'],
+    '_constructed_size': ['^babylon::ReusableVector(<|$)'],
+    '_data': ['^babylon::ReusableVector(<|$)'],
+    '_instance': ['^babylon::ReusableAccessor(<|$)', '^babylon::ReusableManager(<|$)'],
+    '_meta': ['^babylon::ReusableManager(<|$)'],
+    '_mutex': ['^babylon::ReusableManager(<|$)'],
+    '_size': ['^babylon::ReusableVector(<|$)'],
+    '_units': ['^babylon::ReusableManager(<|$)'],
     'accessor': ['^babylon::ReusableManager(<|$)'],
     'construct_with_allocation_metadata': ['^babylon::BasicReusableTraits(<|$)', '^babylon::ReusableTraits(<|$)'],
     'recreate': ['^babylon::ReusableManager(<|$)'],
+    'repeated_reserved': ['^babylon::MessageAllocationMetadata::FieldAllocationMetadata(<|$)'],
     'stable_reserve': ['^babylon(<|$)'],
     'update': ['^babylon::MessageAllocationMetadata(<|$)', '^babylon::MessageAllocationMetadata::FieldAllocationMetadata(<|$)', '^babylon::ReusableManager(<|$)'],
 }
